@@ -328,7 +328,9 @@ def compare(ctx, case, out, sse=False):
     def norm(o):
         o = dict(o)
         if "headers" in o:
-            hs = [h for h in o["headers"] if not (sse and h == ("connection", "keep-alive"))]
+            # hop-by-hop headers are between the application and ITS server: they are not part of the end-to-end response
+            hop = ("connection", "keep-alive", "proxy-authenticate", "proxy-authorization", "te", "trailers", "transfer-encoding", "upgrade")
+            hs = [h for h in o["headers"] if h[0] not in hop]
             hs = [(k, v if "boundary=" not in v else "multipart/byteranges; boundary=*") for k, v in hs]
             o["headers"] = sorted(hs)
         if o.get("body") and any("boundary=*" in v for _, v in o.get("headers", [])):
